@@ -456,7 +456,7 @@ def build_corpus(outdir, tier, seed):
             continue
         text = open(p).read()
         extra = MIRTEST_ANN.get(t, "")
-        add(t, extra + text, "mir-tests/%s.mir" % t)
+        add(t, extra + text, "mir-tests/%s.mir" % t, MIRTEST_OPTS.get(t))
     # 2. hand-written corpus
     cdir = os.path.join(VERIF, "corpus")
     if os.path.isdir(cdir):
@@ -472,6 +472,8 @@ def build_corpus(outdir, tier, seed):
     json.dump({"seed": seed, "tier": tier, "groups": groups, "excluded": excluded}, open(os.path.join(outdir, "c01_corpus.json"), "w"), indent=1)
     return groups
 
+
+MIRTEST_OPTS = {"test14": {"ext_calls": 12}}  # main: 10 printf calls in a loop (default bound: 4 external calls per run)
 
 # annotations for the mir-tests (prepended as comments)
 MIRTEST_ANN = {
@@ -523,6 +525,11 @@ def rewrite_lifted(text, dump, hdr):
                 return "((uint64_t) (uintptr_t) &h_sec%d[%d])" % (sec, off + (v - a))
         return m.group(0)
 
+    # zeroing idiom `xor r,r` / `sub r,r`: the lifter emits (a ^ b) with a and b read from the same register; CBMC's
+    # simplifier does not fold x ^ x, so the register would stay a symbolic EXPRESSION (equal to 0) and every loop counter
+    # initialised this way would make each later branch fork a path.  x ^ x == 0 and x - x == 0: substitute the constant.
+    text = re.sub(r"(\{ uint(32|64)_t a = (\(uint32_t\) )?s->r\[(\d+)\], b = (\(uint32_t\) )?s->r\[\4\];\n\s+x86_w\2 \(s, \4, x86_logic\2 \(s, \(uint\2_t\) )\(a \^ b\)",
+                  lambda m: m.group(1) + "0 /* a ^ a */", text)
     out = []
     for line in text.splitlines():
         if not line.startswith("#define LIFT_SYM_") and not line.lstrip().startswith("/*"):
@@ -641,7 +648,9 @@ def make_cases(meta, hdr, lifted_names):
                         if int(m.group(2)) - int(m.group(1)) <= 16:
                             # case split: under --paths each value of a small range becomes its own path on which the argument is a
                             # constant (trip counts, switch indices: keeps the interpreter's pc concrete); every value is still decided
-                            c.append("  for (int64_t k = %sll; k <= %sll; k++) if ((int64_t) %s == k) { %s = (uint64_t) k; break; }" % (m.group(1), m.group(2), v, v))
+                            # (the last value needs no test: the assumption above leaves nothing else, so no path keeps a symbolic value)
+                            c.append("  { int hit = 0; for (int64_t k = %sll; k < %sll; k++) if ((int64_t) %s == k) { %s = (uint64_t) k; hit = 1; break; }" % (m.group(1), m.group(2), v, v))
+                            c.append("    if (!hit) %s = (uint64_t) %sll; }" % (v, m.group(2)))
                 g = "0"
                 if t in ("i8", "u8", "i16", "u16", "i32", "u32"):
                     c.append("  uint64_t g%d = nd (); /* bits 32-63 of a narrow argument register are arbitrary */" % i)
